@@ -225,6 +225,86 @@ def c_data_any(hid, L, timeout_ms=60000):
     return j.stats
 
 
+def _cstr(e, st, p, limit=2048):
+    """concrete NUL-terminated string at pointer p (global initializer or memory cells)"""
+    cells = e.cells(st, p.obj); out = []
+    for k in range(limit):
+        v = e._read_at(cells, p.obj, p.off.conc() + k, 1, False).conc()
+        if v is None: raise core.Unsupported('symbolic character in a C string')
+        if v == 0: break
+        out.append(v)
+    return bytes(out).decode('latin-1')
+
+
+def _cformat(e, st, fmt, args):
+    """printf formatting for %u %d %s %% with concrete arguments (what trx_if.c uses to compose commands)"""
+    out = ''; i = 0; args = list(args)
+    while i < len(fmt):
+        ch = fmt[i]
+        if ch != '%': out += ch; i += 1; continue
+        spec = fmt[i + 1]; i += 2
+        if spec == '%': out += '%'; continue
+        a = args.pop(0)
+        if spec in 'ud':
+            v = a.conc()
+            if v is None: raise core.Unsupported('printf of a symbolic integer')
+            if spec == 'd' and v >= (1 << 31): v -= 1 << 32
+            out += str(v)
+        elif spec == 's': out += _cstr(e, st, a)
+        else: raise core.Unsupported('printf conversion %%%s' % spec)
+    return out
+
+
+def c_setfh_compose(hid, band, n, timeout_ms=60000):
+    """the SETFH command trxcon composes for a mobile allocation of n channels (trx_if_cmd_setfh, real snprintf semantics for the
+    bounded appends): 'CMD SETFH <hsn> <maio>' followed by n pairs of downlink/uplink kHz values of exactly the allocated channels,
+    in order; a GSM 900 allocation of 64 channels must fit, and when one does not fit nothing is sent (never a truncated command)"""
+    env = Env(hid, timeout_ms); j, ex, L = env.j, env.ex, env.L
+    x = j.var(ex, 'dummy', 0, 1); j.witness(ex, [])
+    so = cjob.offsets(PRE, ['sizeof(struct trxcon_phyif_cmdp_setfreq_h1)', 'offsetof(struct trxcon_phyif_cmdp_setfreq_h1, hsn)', 'offsetof(struct trxcon_phyif_cmdp_setfreq_h1, maio)',
+                            'offsetof(struct trxcon_phyif_cmdp_setfreq_h1, ma)', 'offsetof(struct trxcon_phyif_cmdp_setfreq_h1, ma_len)'], INCS, defs=[])
+    csz, o_hsn, o_maio, o_ma, o_len = so.values()
+    if band == 900: arfcns = [1 + k for k in range(n)]; ul = lambda a: 890000 + 200 * a; dl = lambda a: ul(a) + 45000
+    else: arfcns = [512 + 3 * k for k in range(n)]; ul = lambda a: 1710200 + 200 * (a - 512); dl = lambda a: ul(a) + 95000
+    hsn, maio = 37, 5
+    ma = ex.new_obj(2 * n, 'ma'); cmdp = ex.new_obj(csz, 'cmdp'); ex.zeroed.add(cmdp)
+    env.mem[ma] = {2 * k: (2, C(a)) for k, a in enumerate(arfcns)}
+    env.mem[cmdp] = {o_hsn: (1, C(hsn)), o_maio: (1, C(maio)), o_ma: (8, Ptr(ma, C(0))), o_len: (4, C(n))}
+    i8 = llsym.Ty('int', bits=8)
+    def snprintf(e, st, a):
+        dst, size, fmt = a[0], a[1].conc(), _cstr(e, st, a[2])
+        txt = _cformat(e, st, fmt, a[3:]).encode('latin-1')
+        if size:
+            for k, ch in enumerate(txt[:size - 1] + b'\0'): e.store(st, i8, C(ch), llsym._padd(dst, k), 'snprintf stub')
+        return C(len(txt))
+    composed = []
+    def ctrl_cmd(e, st, a):
+        composed.append((st.guard, a[1].conc(), _cstr(e, st, a[2]), _cformat(e, st, _cstr(e, st, a[3]), a[4:]))); return C(0)
+    # reference band plan (3GPP TS 45.005): the real gsm_arfcn2freq10() of libosmocore is checked against it in C19's module build
+    ex.stubs.update({'@snprintf': snprintf, '@trx_ctrl_cmd': ctrl_cmd, '@logp2': lambda e, st, a: C(0),
+                     '@gsm_arfcn2freq10': lambda e, st, a: C(((ul if a[1].conc() else dl)(a[0].conc() & 0x3ff if band == 900 else a[0].conc() & 0x3ff)) // 100)})
+    out = env.call('@trx_if_cmd_setfh', [Ptr(env.trx, C(0)), Ptr(cmdp, C(0))])
+    j.memory_obligations(ex, [])
+    rc = out.ret.conc(); rc = rc - (1 << 32) if rc is not None and rc >= (1 << 31) else rc
+    want = '%d %d ' % (hsn, maio) + ' '.join('%d %d' % (dl(a), ul(a)) for a in arfcns)
+    fits = len(' '.join('%d %d' % (dl(a), ul(a)) for a in arfcns)) + 1 <= 1024 - 24 - 1 and len('CMD SETFH ' + want) < 1024 - 1
+    st_ = j.stats
+    def ob(name, ok, **info):
+        st_.obligations += 1
+        if ok: st_.discharged += 1; st_.trivial += 1
+        else: st_.failures.append(dict(harness=hid, obligation=name, inputs=dict(band=band, n=n), info={k: repr(v)[:300] for k, v in info.items()}))
+    if band == 900 or fits:
+        ob('composed', rc == 0 and len(composed) == 1, rc=rc, commands=len(composed))
+        if composed:
+            g, crit, verb, text = composed[0]
+            ob('verb', verb == 'SETFH' and crit == 1, verb=verb)
+            ob('text==hsn maio (dl ul)*n in kHz', text == want, got=text[:120], want=want[:120], got_len=len(text), want_len=len(want))
+    else:
+        ob('does-not-fit=>refused-and-nothing-sent', (rc is not None and rc < 0 and not composed) or (rc == 0 and len(composed) == 1 and composed[0][3] == want), rc=rc, commands=len(composed))
+    j.stats.extra['ir_steps'] = ex.steps
+    return j.stats
+
+
 CMDS = ['CMD POWEROFF', 'CMD POWERON', 'CMD ECHO', 'CMD MEASURE 935200', 'CMD RXTUNE 935200', 'CMD TXTUNE 890200', 'CMD SETSLOT 1 7', 'CMD SETTA 3', 'CMD SETFH 5 1 935200 890200']
 
 
@@ -307,7 +387,8 @@ void osmo_timer_schedule(struct osmo_timer_list *t, int s, int us) { }
 void osmo_timer_del(struct osmo_timer_list *t) { }
 void osmo_fd_unregister(struct osmo_fd *f) { }
 int osmo_sock_init2_ofd(struct osmo_fd *ofd, int family, int type, int proto, const char *lh, uint16_t lp, const char *rh, uint16_t rp, unsigned int flags) { return 0; }
-uint16_t gsm_arfcn2freq10(uint16_t a, int ul) { return 9352; }
+static int g_band;
+uint16_t gsm_arfcn2freq10(uint16_t a, int ul) { if (g_band == 900) return (890000 + 200 * a + (ul ? 0 : 45000)) / 100; if (g_band == 1800) return (1710200 + 200 * (a - 512) + (ul ? 0 : 95000)) / 100; return 9352; }
 uint16_t gsm_freq102arfcn(uint16_t f, int ul) { return 1; }
 int trxcon_phyif_handle_rsp(void *p, const struct trxcon_phyif_rsp *r) { printf("RSPIND %%d\n", r->param.measure.dbm); return 0; }
 int trxcon_phyif_handle_rts_ind(void *p, const struct trxcon_phyif_rts_ind *r) { return 0; }
@@ -328,6 +409,13 @@ int main(int argc, char **argv) {
     k++; struct trxcon_phyif_burst_req br = { .fn = strtoul(argv[k], 0, 10), .tn = atoi(argv[k+1]), .pwr = atoi(argv[k+2]) }; k += 3;
     int n = atoi(argv[k++]); ubit_t *b = malloc(n); for (int i = 0; i < n; i++) b[i] = atoi(argv[k++]); br.burst = b; br.burst_len = n;
     printf("RC %%d\n", trx_if_handle_phyif_burst_req(trx, &br));
+  } else if (!strcmp(argv[k], "setfh")) {
+    k++; g_band = atoi(argv[k++]); int n = atoi(argv[k++]); uint16_t *ma = malloc(2 * n);
+    for (int i = 0; i < n; i++) ma[i] = g_band == 900 ? 1 + i : 512 + 3 * i;
+    struct trxcon_phyif_cmdp_setfreq_h1 c = { .hsn = 37, .maio = 5, .ma = ma, .ma_len = n };
+    int rc = trx_if_cmd_setfh(trx, &c);
+    printf("RC %%d QUEUE %%d\n", rc, !llist_empty(&trx->trx_ctrl_list));
+    if (!llist_empty(&trx->trx_ctrl_list)) printf("CMDTEXT %%s\n", llist_entry(trx->trx_ctrl_list.next, struct trx_ctrl_msg, list)->cmd);
   }
   return 0;
 }
@@ -346,6 +434,22 @@ def _octs_from(body):
 
 def replay(body):
     fn = body['func']; i = body['inputs']; sh = body['shape']
+    if fn == 'c_setfh_compose':
+        band, n = sh['band'], sh['n']
+        rc, out = native(['setfh', band, n])
+        if rc is None: return 2, out
+        if rc != 0: return 1, 'REPRODUCED on native trx_if.c (ASan/UBSan): SETFH for %d channels: %s' % (n, out[-600:])
+        if band == 900: arfcns = [1 + k for k in range(n)]; ul = lambda a: 890000 + 200 * a; dl = lambda a: ul(a) + 45000
+        else: arfcns = [512 + 3 * k for k in range(n)]; ul = lambda a: 1710200 + 200 * (a - 512); dl = lambda a: ul(a) + 95000
+        want = 'CMD SETFH 37 5 ' + ' '.join('%d %d' % (dl(a), ul(a)) for a in arfcns)
+        m = re.search(r'RC (-?\d+) QUEUE (\d)', out); t = re.search(r'CMDTEXT (.*)', out)
+        grc = int(m.group(1)); text = t.group(1) if t else None
+        fits = len(want) - len('CMD SETFH 37 5 ') + 1 <= 1024 - 24 - 1 and len(want) < 1023
+        if band == 900 or fits:
+            ok = grc == 0 and text == want
+        else:
+            ok = (grc < 0 and text is None) or (grc == 0 and text == want)
+        return (0, 'native agrees') if ok else (1, 'REPRODUCED on native trx_if.c: SETFH for %d channels (band %d): rc=%d, command %s' % (n, band, grc, ('%r...(%d octets)' % (text[:60], len(text))) if text else 'none'))
     if fn == 'c_data_any':
         o = _octs_from(body)
         rc, out = native(['data', len(o)] + o)
